@@ -153,6 +153,7 @@ type HandlerSpec struct {
 	Code     int       `json:"code"`      // final status when nothing went wrong
 	Msg      string    `json:"msg"`       //
 	FailCode int       `json:"fail_code"` // final status when a stream call failed
+	Details  bool      `json:"details,omitempty"` // attach status details to a non-OK final status
 }
 
 // HLog is what the scripted handler observed. It is written by the goroutine
@@ -335,6 +336,12 @@ func finalStatus(spec *HandlerSpec, failed bool) error {
 	}
 	if code == codes.OK {
 		return nil
+	}
+	if spec.Details && !failed {
+		st, err := status.New(code, msg).WithDetails(&grpc_testing.Payload{Body: []byte("detail-" + msg)}, &grpc_testing.EchoStatus{Code: int32(code), Message: "second"})
+		if err == nil {
+			return st.Err()
+		}
 	}
 	return status.Error(code, msg)
 }
